@@ -53,3 +53,43 @@ func VerifH09p() {
 	verifSameMatrix("C09/pipeline/optimizers-preserve-result", other, base, "", false)
 	sym.Reached("C09/pipeline/end")
 }
+
+var verifHintQueriesS = []string{
+	`foo`,
+	`foo offset 1m`,
+	`count_over_time(foo[2m])`,
+	`max_over_time(foo[1m] offset 30s)`,
+	`foo @ 100`,
+	`sum by (a) (foo) + on(a) foo{a="x"}`,
+	`last_over_time(foo[1m]) + on(a, b) foo`,
+	`foo{a="x"} - on(a) max_over_time(foo[2m])`,
+}
+
+// VerifH16s: sufficiency of the hinted time range, with and without plan rewrites: the
+// result is unchanged when the storage omits every sample outside [hints.Start, hints.End]
+// of the respective select.
+func VerifH16s() {
+	qs := verifHintQueriesS[sym.Choice("query", len(verifHintQueriesS))]
+	start := sym.Int64("start", 0, verifR)
+	step := sym.Int64("step", 1, verifR)
+	lookback := sym.Int64("lookback", 1, verifR)
+	data := func() []*stub.Series {
+		out := []*stub.Series{
+			stub.NewSeries(stub.Labels("__name__", "foo", "a", "x", "b", "1"), stub.SymSeries("s0", 2, verifR)),
+		}
+		if sym.Tier(0, 1) == 1 {
+			out = append(out, stub.NewSeries(stub.Labels("__name__", "foo", "a", "y", "b", "1"), stub.SymSeries("s1", 1, verifR)))
+		}
+		return out
+	}
+	d := data()
+	sym.SetGOMAXPROCS(2)
+	opts := logicalplan.DefaultOptimizers
+	if sym.Choice("optimizers", 2) == 1 {
+		opts = logicalplan.NoOptimizers
+	}
+	full := verifExecRange(verifEngine(opts, lookback), &stub.Queryable{Ser: d}, qs, start, start+step, step)
+	trimmed := verifExecRange(verifEngine(opts, lookback), &stub.Queryable{Ser: d, HonourHints: true}, qs, start, start+step, step)
+	verifSameMatrix("C16/hinted-range-sufficient", trimmed, full, "", false)
+	sym.Reached("C16/sufficiency/end")
+}
